@@ -39,6 +39,9 @@ type TxnCfg struct {
 	NameClash bool
 	// NameBias raises the share of named inserts.
 	NameBias bool
+	// Big switches the value generators to the Big mode (see Pool.Big) and adds fan-in
+	// composites (dozens of rows referring to one row).
+	Big bool
 	// SharedUUIDs lets an insert (rarely) take the uuid of a row of another table: uuids
 	// identify rows per table only.
 	SharedUUIDs bool
@@ -72,7 +75,7 @@ func (g *TxnGen) fresh() string {
 }
 
 func (g *TxnGen) pool(st State, extra map[string][]string, names []string) *Pool {
-	p := &Pool{RowUUIDs: map[string][]string{}, Names: names, NameTable: g.nameTable, Wide: g.Cfg.Wide, NoDangling: g.Cfg.NoDangling}
+	p := &Pool{RowUUIDs: map[string][]string{}, Names: names, NameTable: g.nameTable, Wide: g.Cfg.Wide, NoDangling: g.Cfg.NoDangling, Big: g.Cfg.Big}
 	for _, t := range g.S.Tables {
 		p.RowUUIDs[t.Name] = append(SortedUUIDs(st[t.Name]), extra[t.Name]...)
 	}
@@ -240,11 +243,21 @@ func (g *TxnGen) GenMutation(t *rapid.T, c Col, cur *Val, pool *Pool) Mut {
 		// argument: fresh elements, or part of the current value (so that deletes hit)
 		if cur != nil && len(cur.K) > 0 && rapid.Bool().Draw(t, "fromcur") {
 			m.Val = subsetOf(*cur)
+			if pool != nil && pool.Big && rapid.Bool().Draw(t, "bigwhole") {
+				// the whole current value and a few fresh elements
+				m.Val = cur.Clone()
+				for i, n := 0, rapid.IntRange(0, 3).Draw(t, "bigfresh"); i < n; i++ {
+					m.Val = m.Val.With(GenAtom(t, c.Key, pool))
+				}
+			}
 			if rapid.Bool().Draw(t, "plusfresh") {
 				m.Val = m.Val.With(GenAtom(t, c.Key, pool))
 			}
 		} else {
 			n := rapid.IntRange(0, 3).Draw(t, "nelems")
+			if pool != nil && pool.Big && rapid.Bool().Draw(t, "bigarg") {
+				n = rapid.SampledFrom(bigSizes).Draw(t, "bignelems")
+			}
 			m.Val = EmptySet()
 			for i := 0; i < n; i++ {
 				m.Val = m.Val.With(GenAtom(t, c.Key, pool))
@@ -252,6 +265,9 @@ func (g *TxnGen) GenMutation(t *rapid.T, c Col, cur *Val, pool *Pool) Mut {
 		}
 		if len(m.Val.K) == 1 {
 			m.Bare = rapid.Bool().Draw(t, "bare")
+		}
+		if cur != nil && len(cur.K)*len(m.Val.K) > 4096 {
+			Label("generator", "mutate:set-size-product>4096:"+m.Mutator)
 		}
 		return m
 	default:
@@ -268,6 +284,9 @@ func (g *TxnGen) GenMutation(t *rapid.T, c Col, cur *Val, pool *Pool) Mut {
 			}
 		} else {
 			n := rapid.IntRange(0, 3).Draw(t, "npairs")
+			if pool != nil && pool.Big && rapid.Bool().Draw(t, "bigarg") {
+				n = rapid.SampledFrom(bigSizes).Draw(t, "bignpairs")
+			}
 			m.Val = EmptyMap()
 			for i := 0; i < n; i++ {
 				m.Val = m.Val.WithPair(GenAtom(t, c.Key, pool), GenAtom(t, *c.Value, pool))
@@ -424,6 +443,16 @@ func (g *TxnGen) genTxn(t *rapid.T, st State) []Op {
 				names = append(names, opName[i])
 				g.nameTable[opName[i]] = tb.Name
 			}
+		}
+	}
+	if g.Cfg.Big && rapid.IntRange(0, 2).Draw(t, "bigmutate") == 0 {
+		if ops := g.genBigMutate(t, st); ops != nil {
+			return ops
+		}
+	}
+	if g.Cfg.Big && rapid.IntRange(0, 3).Draw(t, "fanin") == 0 {
+		if ops := g.genFanIn(t, st); ops != nil {
+			return ops
 		}
 	}
 	if g.Cfg.RefBias && rapid.IntRange(0, 2).Draw(t, "composite") == 0 {
@@ -794,6 +823,115 @@ func (g *TxnGen) genAttach(t *rapid.T, st State) []Op {
 		// order of operations inside a transaction does not matter for references by uuid
 		ops = rapid.Permutation(ops).Draw(t, "oporder")
 	}
+	return ops
+}
+
+// genBigMutate (Big mode) mutates or updates a set column that holds dozens of elements
+// with an argument that overlaps it largely: the whole value or half of it plus up to 40
+// fresh elements, as insert, delete or update.
+func (g *TxnGen) genBigMutate(t *rapid.T, st State) []Op {
+	type site struct {
+		tb   Table
+		col  Col
+		uuid string
+	}
+	var sites []site
+	for _, tb := range g.S.Tables {
+		for _, u := range SortedUUIDs(st[tb.Name]) {
+			for _, c := range tb.Cols {
+				if c.Shape() == ShSet && !c.Immutable && c.Max < 0 && len(st[tb.Name][u][c.Name].K) >= 33 && !(c.Key.T == TUUID && c.Key.Ref != nil) {
+					sites = append(sites, site{tb, c, u})
+				}
+			}
+		}
+	}
+	if len(sites) == 0 {
+		return nil
+	}
+	s := sites[rapid.IntRange(0, len(sites)-1).Draw(t, "bigsite")]
+	pool := g.pool(st, nil, nil)
+	cur := st[s.tb.Name][s.uuid][s.col.Name]
+	arg := cur.Clone()
+	if rapid.Bool().Draw(t, "bighalf") {
+		arg = EmptySet()
+		for i, k := range cur.K {
+			if i%2 == 0 {
+				arg = arg.With(k)
+			}
+		}
+	}
+	for i, n := 0, rapid.SampledFrom([]int{0, 1, 3, 10, 40}).Draw(t, "bigfresh"); i < n; i++ {
+		arg = arg.With(GenAtom(t, s.col.Key, pool))
+	}
+	where := []Cond{{Col: "_uuid", Fn: "==", Val: Scalar(UUID(s.uuid))}}
+	kind := rapid.SampledFrom([]string{"insert", "insert", "delete", "update"}).Draw(t, "bigkind")
+	Label("generator", "big-mutate:"+kind)
+	if len(cur.K)*len(arg.K) > 4096 {
+		Label("generator", "big-mutate:size-product>4096")
+	}
+	if kind == "update" {
+		return []Op{{Op: "update", Table: s.tb.Name, Where: where, Row: Row{s.col.Name: arg}}}
+	}
+	return []Op{{Op: "mutate", Table: s.tb.Name, Where: where, Mutations: []Mut{{Col: s.col.Name, Mutator: kind, Val: arg}}}}
+}
+
+// genFanIn builds the transaction "dozens of new rows refer to one row" (Big mode): 33-70
+// inserts into a table without schema indexes, each holding a reference to the same
+// (existing or new) row in a drawn reference column.
+func (g *TxnGen) genFanIn(t *rapid.T, st State) []Op {
+	type site struct {
+		tb  Table
+		col Col
+	}
+	var sites []site
+	for _, tb := range g.S.Tables {
+		if len(tb.Indexes) > 0 {
+			continue
+		}
+		for _, c := range tb.Cols {
+			if c.Key.T == TUUID && c.Key.Ref != nil && c.Shape() != ShMap {
+				sites = append(sites, site{tb, c})
+			}
+		}
+	}
+	if len(sites) == 0 {
+		return nil
+	}
+	s := sites[rapid.IntRange(0, len(sites)-1).Draw(t, "faninsite")]
+	target := g.S.Table(s.col.Key.Ref.Table)
+	pool := g.pool(st, nil, nil)
+	var ops []Op
+	existing := SortedUUIDs(st[target.Name])
+	to := ""
+	if len(existing) == 0 || rapid.Bool().Draw(t, "fanintonew") {
+		ins := g.GenInsert(t, *target, pool, "")
+		if ins.UUID == "" {
+			ins.UUID = g.fresh()
+		}
+		to = ins.UUID
+		ops = append(ops, ins)
+		pool.RowUUIDs[target.Name] = append(pool.RowUUIDs[target.Name], to)
+	} else {
+		to = rapid.SampledFrom(existing).Draw(t, "faninto")
+	}
+	n := rapid.SampledFrom([]int{33, 34, 40, 70}).Draw(t, "faninrows")
+	for i := 0; i < n; i++ {
+		ins := g.GenInsert(t, s.tb, pool, "")
+		if s.col.Shape() == ShSet {
+			v, ok := ins.Row[s.col.Name]
+			if !ok {
+				v = EmptySet()
+			}
+			if s.col.Max >= 0 && len(v.K) >= s.col.Max {
+				v = EmptySet()
+			}
+			ins.Row[s.col.Name] = v.With(UUID(to))
+		} else {
+			ins.Row[s.col.Name] = Scalar(UUID(to))
+		}
+		ops = append(ops, ins)
+	}
+	Label("generator", "fan-in:"+fmt.Sprint(n))
 	return ops
 }
 
